@@ -132,7 +132,10 @@ def check(ctx, P, cfg, rule="shape-eval", simd_only=False, scalar_only=False):
             continue
         bad = []
         n_ok = 0
-        for n in range(maxn + 1):
+        from .. import shapeconst
+        extra, big = shapeconst.around(shapeconst.usize_consts(P, fn), unit=bs, hi=80)
+        counts = sorted(set(range(maxn + 1)) | extra)
+        for n in counts:
             try:
                 run_one(P, path, nwords, w, bs, n, leaves, data_first="ripemd160" in path)
                 n_ok += 1
@@ -142,12 +145,15 @@ def check(ctx, P, cfg, rule="shape-eval", simd_only=False, scalar_only=False):
                 bad.append((n, "not evaluable: %s: %s" % (type(e).__name__, str(e)[:100])))
             if len(bad) > 2:
                 break
-        ok = not bad and n_ok == maxn + 1
-        ctx.check(ok, rule, inst, "runs of 0..%d blocks: the compression leaves consume blocks 0..n-1 in order, each once, chained through the state" % maxn,
+        ok = not bad and n_ok == len(counts)
+        ctx.check(ok, rule, inst, "runs of 0..%d%s blocks: the compression leaves consume blocks 0..n-1 in order, each once, chained through the state" % (maxn, (" and %s" % sorted(extra - set(range(maxn + 1)))) if extra - set(range(maxn + 1)) else ""),
                   "%s does not compress each block of its run exactly once, in order: (blocks, what) %s" % (path, bad[:3]), where=fn.where(), key="%s:%s" % (rule, inst))
         if ok:
             seen.add(inst)
             done += 1
+        if ok and big:
+            ctx.note("%s names the length constant(s) %s, beyond the evaluated run lengths: the for-all-lengths structural rule keeps its authority" % (path, big))
+        if ok and not big:
             why = "%s is decided for every run of 0..%d blocks by bounded shape evaluation with opaque compression leaves (shape-eval)" % (path, maxn)
             ctx.subsume("block-run:%s" % path, why)
             if is_simd:
